@@ -160,6 +160,23 @@ def _attempt_schema(
         return Outcome(element, result=None, error=exc)
 
 
+def _most_specific(outcomes: List[Outcome]) -> Outcome:
+    """Select the outcome of the element which `AllOf.annotation` describes.
+
+    That is the first explicitly typed element, or else the first union
+    typed element, or else the first element.
+    """
+    typed = [
+        outcome for outcome in outcomes if outcome.target.annotation != "Any"
+    ]
+    explicit = [
+        outcome
+        for outcome in typed
+        if not outcome.target.annotation.startswith("Union")
+    ]
+    return (explicit or typed or outcomes)[0]
+
+
 def _attempt_schemas(
     elements: List[Element],
     value: Any,
@@ -200,5 +217,5 @@ def _attempt_schemas(
             raise ValidationError.combine(
                 property_, value, errors, "Does not match all required schemas."
             )
-        return results[0]
+        return _most_specific(outcomes).result
     raise ValueError(f"Got bad argument for `mode`: {mode}")  # pragma: no cover
